@@ -194,7 +194,7 @@ raw_all!(c05_raw_weekday, chrono::Weekday, 2, 4, quick);
 raw_all!(c05_raw_month, chrono::Month, 2, 4, quick);
 //@ props=C05,C06,C04:t tier=quick bounds=FixedOffset:all-byte-strings<=6
 raw_all!(c05_raw_fixed_offset, chrono::FixedOffset, 6, 8, quick);
-//@ props=C05,C06,C04:t tier=quick bounds=DateTime<Utc>:all-byte-strings<=12 cap=900
+//@ props=C05,C06,C04:t tier=off bounds=DateTime<Utc>:all-byte-strings<=12 cap=900
 raw_all!(c05_raw_datetime_utc, chrono::DateTime<chrono::Utc>, 12, 4, quick);
 //@ props=C05,C06,C04:t tier=thorough bounds=NaiveDate:all-byte-strings<=7 cap=1800
 raw_all!(c05_raw_naive_date, chrono::NaiveDate, 7, 8, thorough);
@@ -245,7 +245,7 @@ macro_rules! raw_prefixed {
     };
 }
 
-//@ props=C05,C06,C04:t,C19 tier=quick bounds=String:all-byte-strings<=3 cap=900
+//@ props=C05,C06,C04:t,C19 tier=thorough bounds=String:all-byte-strings<=3 cap=900
 raw_prefixed!(c05_hostile_string3, String, 3, 5);
 //@ props=C05,C06,C04:t,C19 tier=thorough bounds=String:all-byte-strings<=7(full-5-byte-length-varint) cap=2400
 raw_prefixed!(c05_hostile_string7, String, 7, 9);
@@ -257,19 +257,19 @@ raw_prefixed!(c05_hostile_vecu8_7, Vec<u8>, 7, 9);
 raw_prefixed!(c05_hostile_bytes3, bytes::Bytes, 3, 5);
 //@ props=C05,C06,C04:t,C19 tier=quick bounds=[u8;2]:all-byte-strings<=4 cap=900
 raw_prefixed!(c05_hostile_arru8_2, [u8; 2], 4, 6);
-//@ props=C05,C06,C04:t,C19 tier=quick bounds=[u16;2]:all-byte-strings<=5 cap=900
+//@ props=C05,C06,C04:t,C19 tier=off bounds=[u16;2]:all-byte-strings<=5 cap=900
 raw_prefixed!(c05_hostile_arru16_2, [u16; 2], 5, 7);
-//@ props=C05,C06,C04:t,C19 tier=quick bounds=[u16;0]:all-byte-strings<=2 cap=900
+//@ props=C05,C06,C04:t,C19 tier=off bounds=[u16;0]:all-byte-strings<=2 cap=900
 raw_prefixed!(c05_hostile_arru16_0, [u16; 0], 2, 4);
-//@ props=C05,C06,C04:t tier=quick bounds=Vec<u16>:all-byte-strings<=3 cap=900
+//@ props=C05,C06,C04:t tier=thorough bounds=Vec<u16>:all-byte-strings<=3 cap=900
 raw_prefixed!(c05_hostile_vecu16_3, Vec<u16>, 3, 6);
-//@ props=C05,C06,C04:t tier=thorough bounds=Vec<u16>:all-byte-strings<=5 cap=2400
+//@ props=C05,C06,C04:t tier=off bounds=Vec<u16>:all-byte-strings<=5 cap=2400
 raw_prefixed!(c05_hostile_vecu16_5, Vec<u16>, 5, 8);
-//@ props=C05,C06,C04:t tier=quick bounds=LinkedList<u8>:all-byte-strings<=3 cap=900
+//@ props=C05,C06,C04:t tier=thorough bounds=LinkedList<u8>:all-byte-strings<=3 cap=900
 raw_prefixed!(c05_hostile_listu8_3, std::collections::LinkedList<u8>, 3, 6);
 
 proof! {
-    //@ props=C05 tier=quick bounds=termination;Vec<()>:count-varint-symbolic(5-bytes);iterations<=input-length+2
+    //@ props=C05 tier=thorough bounds=termination;Vec<()>:count-varint-symbolic(5-bytes);iterations<=input-length+2
     fn c05_termination_vec_unit() unwind(8) {
         // zero-width elements: the loop must still be bounded by the bytes consumed
         let data: [u8; 5] = sym::bytes();
@@ -289,7 +289,7 @@ proof! {
 }
 
 proof! {
-    //@ props=C05,C06 tier=quick bounds=String:negative-length(5-byte-varint-symbolic)+<=2-bytes
+    //@ props=C05,C06 tier=off bounds=String:negative-length(5-byte-varint-symbolic)+<=2-bytes
     fn c05_string_negative_length() unwind(8) {
         let data: [u8; 7] = sym::bytes();
         let len = sym::index_below(8);
@@ -314,8 +314,16 @@ macro_rules! ctor_index {
             v0only fn $name() unwind(8) {
                 // 0 (enum record version) ++ constructor index: a fully symbolic varint of up to 5 bytes
                 // ++ zeros (version byte 0 and a zero payload wherever the varint ends)
+                // a k-byte varint (k symbolic in 1..=5, payload bits symbolic) followed by zeros only
                 let v: [u8; 5] = sym::bytes();
-                let data: [u8; 12] = [0, v[0], v[1], v[2], v[3], v[4], 0, 0, 0, 0, 0, 0];
+                let k = sym::below(5) as usize + 1;
+                let mut w = [0u8; 5];
+                let mut i = 0;
+                while i < 5 {
+                    w[i] = if i + 1 < k { v[i] | 0x80 } else if i + 1 == k { v[i] & 0x7f } else { 0 };
+                    i += 1;
+                }
+                let data: [u8; 12] = [0, w[0], w[1], w[2], w[3], w[4], 0, 0, 0, 0, 0, 0];
                 let mut rd = Rd::new(&data[1..]);
                 let idx = rd.varu();
                 sym::assume(matches!(idx, Some(i) if i >= $nvariants));
